@@ -198,9 +198,9 @@ func parent(args []string) {
 	var wg sync.WaitGroup
 	skipped := 0
 	for i, b := range batches {
-		// enough is enough: once a dozen scenarios have violated, the remaining batches add nothing (and a library
+		// enough is enough: once half a dozen scenarios have violated, the remaining batches add nothing (and a library
 		// that deadlocks makes every further scenario wait for its bounds)
-		if violationsSoFar.Load() >= 12 {
+		if violationsSoFar.Load() >= 6 {
 			skipped++
 			continue
 		}
@@ -508,7 +508,7 @@ func runBatch(self string, p *core.Property, tier string, seed uint64, b batch, 
 		}
 		if code == 75 { // the child abandoned a scenario that could not wind down after a violation: go on after it
 			from = done
-			if violationsSoFar.Load() >= 12 {
+			if violationsSoFar.Load() >= 6 {
 				return
 			}
 			continue
@@ -541,7 +541,7 @@ func runBatch(self string, p *core.Property, tier string, seed uint64, b batch, 
 			results = append(results, r)
 			violationsSoFar.Add(1)
 			from = idx + 1
-			if violationsSoFar.Load() >= 12 {
+			if violationsSoFar.Load() >= 6 {
 				return
 			}
 			continue
